@@ -54,14 +54,14 @@ class NumberType(Type):
         if isinstance(left,str) and isinstance(right,str):
             return left==right
         elif isinstance(left,(list,np.ndarray)) and isinstance(right,(list,np.ndarray)):
-            return np.all(np.isclose(left, right, rtol=Numeric.PRECISION))
+            return np.all(np.isclose(left, right, rtol=Numeric.PRECISION, atol=0))
         elif left is None and right is None:
             return True
         elif left is None or right is None:
             return False
         else:
             # isclose does not work with integers
-            return np.isclose(float(left), float(right), rtol=Numeric.PRECISION)
+            return np.isclose(float(left), float(right), rtol=Numeric.PRECISION, atol=0)
         
     def __ne__(self, other):
         return BooleanType(not self.__eq__(other))
@@ -76,11 +76,11 @@ class NumberType(Type):
 
     def __le__(self, other):
         left, right = self._prepare(other)
-        return BooleanType((left<right)|np.isclose(left, right, rtol=Numeric.PRECISION))
+        return BooleanType((left<right)|np.isclose(left, right, rtol=Numeric.PRECISION, atol=0))
 
     def __ge__(self, other):
         left, right = self._prepare(other)
-        return BooleanType((left>right)|np.isclose(left, right, rtol=Numeric.PRECISION))
+        return BooleanType((left>right)|np.isclose(left, right, rtol=Numeric.PRECISION, atol=0))
         
     def convert(self, unit, env=None):
         """ Convert units of this type
